@@ -140,6 +140,8 @@ def bounded(ctx, b):
 def run(ctx):
     import props.C07_spans as SP
     SP.prove_span_balance(ctx)
+    import props.C07_span_tag as ST_
+    ST_.prove_span_tag(ctx)
     ctx.bounded("documents", "caption sets read from sample documents of six formats and API-built sets (texts, style values, "
                 "class names and language codes with quotes, &, <, ]]>; styles named like region ids; spans with and "
                 "without markup; identical timespans; layouts at three levels) x three DFXP writers x options x force: "
